@@ -3,4 +3,633 @@ From Coq Require Import List Arith Bool Lia.
 Import ListNotations.
 From MirV Require Import C13.Link.
 
-Lemma placeholder : True. Proof. exact I. Qed.
+(* ------------------------------------------------------------ association lists *)
+
+Lemma assoc_app {A} (l1 l2 : list (name * A)) n :
+  assoc (l1 ++ l2) n = match assoc l1 n with Some v => Some v | None => assoc l2 n end.
+Proof.
+  induction l1 as [|[m v] l1 IH]; simpl; [reflexivity|].
+  destruct (Nat.eqb m n); [reflexivity | exact IH].
+Qed.
+
+Lemma assoc_env_update e n d m :
+  assoc (env_update e n d) m
+  = if Nat.eqb n m then match assoc e n with Some _ => Some d | None => None end else assoc e m.
+Proof.
+  induction e as [|[k v] e IH]; simpl.
+  - destruct (Nat.eqb n m); reflexivity.
+  - destruct (Nat.eqb k n) eqn:Hkn; simpl.
+    + apply Nat.eqb_eq in Hkn; subst k.
+      destruct (Nat.eqb n m) eqn:Hnm; [reflexivity|]. reflexivity.
+    + destruct (Nat.eqb k m) eqn:Hkm.
+      * destruct (Nat.eqb n m) eqn:Hnm; [|reflexivity].
+        apply Nat.eqb_eq in Hkm, Hnm. subst. rewrite Nat.eqb_refl in Hkn. discriminate.
+      * exact IH.
+Qed.
+
+Lemma setup_global_lookup e n d m :
+  assoc (fst (setup_global e n d)) m = if Nat.eqb n m then Some d else assoc e m.
+Proof.
+  unfold setup_global. destruct (assoc e n) eqn:He; simpl.
+  - rewrite assoc_env_update, He. reflexivity.
+  - rewrite assoc_app. simpl.
+    destruct (Nat.eqb n m) eqn:Hnm.
+    + apply Nat.eqb_eq in Hnm; subst m. rewrite He. reflexivity.
+    + destruct (assoc e m); reflexivity.
+Qed.
+
+Lemma setup_global_existed e n d :
+  snd (setup_global e n d) = match assoc e n with Some _ => true | None => false end.
+Proof. unfold setup_global. destruct (assoc e n); reflexivity. Qed.
+
+(* ------------------------------------------------------------ the log *)
+
+Lemma last_def_app l1 l2 n :
+  last_def (l1 ++ l2) n = match last_def l2 n with Some d => Some d | None => last_def l1 n end.
+Proof.
+  induction l1 as [|[m d] l1 IH]; simpl.
+  - destruct (last_def l2 n); reflexivity.
+  - rewrite IH. destruct (last_def l2 n); reflexivity.
+Qed.
+
+Lemma last_def_snoc l m d n :
+  last_def (l ++ [(m, d)]) n = if Nat.eqb m n then Some d else last_def l n.
+Proof. rewrite last_def_app. simpl. destruct (Nat.eqb m n); reflexivity. Qed.
+
+(* the environment table answers every lookup with the last logged definition *)
+Definition agree (e : envT) (log : list (name * defref)) : Prop :=
+  forall n, assoc e n = last_def log n.
+
+Lemma agree_nil : agree [] [].
+Proof. intro n. reflexivity. Qed.
+
+Lemma agree_setup e log n d :
+  agree e log -> agree (fst (setup_global e n d)) (log ++ [(n, d)]).
+Proof.
+  intros H m. rewrite setup_global_lookup, last_def_snoc.
+  destruct (Nat.eqb n m); [reflexivity | apply H].
+Qed.
+
+(* ------------------------------------------------------------ MIR_load_module *)
+
+Lemma load_items_ok id items : forall i e rd e' log,
+  load_items id items i e rd = (e', None) ->
+  agree e log -> agree e' (log ++ exported_from id items i).
+Proof.
+  induction items as [|it rest IH]; intros i e rd e' log H Ha; simpl in *.
+  - inversion H; subst. rewrite app_nil_r. exact Ha.
+  - destruct (iexp it).
+    + destruct (setup_global e (iname it) (DMod id i (ik it))) as [e1 ex] eqn:Hs.
+      destruct (ex && ikind_eqb (ik it) KFunc && negb rd); [discriminate|].
+      change (log ++ (iname it, DMod id i (ik it)) :: exported_from id rest (S i))
+        with (log ++ [(iname it, DMod id i (ik it))] ++ exported_from id rest (S i)).
+      rewrite app_assoc. eapply IH; [exact H|].
+      replace e1 with (fst (setup_global e (iname it) (DMod id i (ik it)))) by (rewrite Hs; reflexivity).
+      apply agree_setup. exact Ha.
+    + eapply IH; eauto.
+Qed.
+
+Lemma load_items_err_kind id items : forall i e rd,
+  snd (load_items id items i e rd) = None \/ snd (load_items id items i e rd) = Some ERepeatedDecl.
+Proof.
+  induction items as [|it rest IH]; intros; simpl; [left; reflexivity|].
+  destruct (iexp it); [|apply IH].
+  destruct (setup_global e (iname it) (DMod id i (ik it))) as [e1 ex].
+  destruct (ex && ikind_eqb (ik it) KFunc && negb rd); [right; reflexivity | apply IH].
+Qed.
+
+Lemma ikind_eqb_eq a b : ikind_eqb a b = true <-> a = b.
+Proof. destruct a, b; simpl; split; intro H; try reflexivity; try discriminate. Qed.
+
+(* the load is rejected exactly when redefinition is not permitted and some exported FUNCTION of
+   the module has a name that is already defined (by the log or by an earlier item of the module) *)
+Lemma load_items_rejects id items : forall i e rd log,
+  agree e log ->
+  (snd (load_items id items i e rd) = Some ERepeatedDecl <->
+   rd = false /\ exists l1 it l2, items = l1 ++ it :: l2 /\ iexp it = true /\ ik it = KFunc /\
+                   last_def (log ++ exported_from id l1 i) (iname it) <> None).
+Proof.
+  induction items as [|it rest IH]; intros i e rd log Ha; simpl.
+  - split; [discriminate|]. intros [_ (l1 & x & l2 & H & _)]. destruct l1; discriminate.
+  - destruct (iexp it) eqn:Hexp.
+    + destruct (setup_global e (iname it) (DMod id i (ik it))) as [e1 ex] eqn:Hs.
+      assert (Hex : ex = match last_def log (iname it) with Some _ => true | None => false end).
+      { pose proof (setup_global_existed e (iname it) (DMod id i (ik it))) as Hx.
+        rewrite Hs in Hx. simpl in Hx. rewrite Hx, Ha. reflexivity. }
+      assert (Ha1 : agree e1 (log ++ [(iname it, DMod id i (ik it))])).
+      { replace e1 with (fst (setup_global e (iname it) (DMod id i (ik it)))) by (rewrite Hs; reflexivity).
+        apply agree_setup. exact Ha. }
+      destruct (ex && ikind_eqb (ik it) KFunc && negb rd) eqn:Hc; simpl.
+      * apply andb_true_iff in Hc. destruct Hc as [Hc Hrd]. apply andb_true_iff in Hc.
+        destruct Hc as [Hx Hk]. apply ikind_eqb_eq in Hk. apply negb_true_iff in Hrd.
+        split; [intros _|reflexivity]. split; [exact Hrd|].
+        exists [], it, rest. simpl. rewrite app_nil_r. repeat split; auto.
+        rewrite Hex in Hx. destruct (last_def log (iname it)); [discriminate|discriminate].
+      * specialize (IH (S i) e1 rd _ Ha1). rewrite IH. clear IH.
+        split.
+        -- intros [Hrd (l1 & x & l2 & Hsp & Hxe & Hxk & Hl)]. split; [exact Hrd|].
+           exists (it :: l1), x, l2. simpl. rewrite Hsp, Hexp. repeat split; auto.
+           rewrite <- app_assoc in Hl. exact Hl.
+        -- intros [Hrd (l1 & x & l2 & Hsp & Hxe & Hxk & Hl)]. split; [exact Hrd|].
+           destruct l1 as [|y l1]; simpl in Hsp; inversion Hsp; subst.
+           ++ exfalso. simpl in Hl. rewrite app_nil_r in Hl.
+              rewrite Hxk in Hc. simpl in Hc. rewrite andb_true_r in Hc.
+              destruct (last_def log (iname x)); [simpl in Hc; discriminate | apply Hl; reflexivity].
+           ++ exists l1, x, l2. repeat split; auto.
+              simpl in Hl. rewrite Hexp in Hl. rewrite <- app_assoc. exact Hl.
+    + rewrite (IH (S i) e rd log Ha). split.
+      * intros [Hrd (l1 & x & l2 & Hsp & Hxe & Hxk & Hl)]. split; [exact Hrd|].
+        exists (it :: l1), x, l2. simpl. rewrite Hsp, Hexp. repeat split; auto.
+      * intros [Hrd (l1 & x & l2 & Hsp & Hxe & Hxk & Hl)]. split; [exact Hrd|].
+        destruct l1 as [|y l1]; simpl in Hsp; inversion Hsp; subst.
+        -- rewrite Hxe in Hexp. discriminate.
+        -- exists l1, x, l2. repeat split; auto. simpl in Hl. rewrite Hexp in Hl. exact Hl.
+Qed.
+
+(* ------------------------------------------------------------ MIR_link *)
+
+(* what an import of n gets when the table is e and the resolver is r *)
+Definition bind_spec (e : envT) (r : resolver) (n : name) : option defref :=
+  match assoc e n with
+  | Some d => Some d
+  | None => match r n with Some a => Some (DExt a) | None => None end
+  end.
+
+(* registering the resolver's answers *)
+Fixpoint apply_new (e : envT) (new : list (name * nat)) : envT :=
+  match new with
+  | [] => e
+  | (n, a) :: rest => apply_new (fst (setup_global e n (DExt a))) rest
+  end.
+
+Lemma apply_new_app e l1 l2 : apply_new e (l1 ++ l2) = apply_new (apply_new e l1) l2.
+Proof. revert e; induction l1 as [|[n a] l1 IH]; intro e; simpl; [reflexivity | apply IH]. Qed.
+
+Lemma agree_apply_new new : forall e log,
+  agree e log -> agree (apply_new e new) (log ++ map (fun na => (fst na, DExt (snd na))) new).
+Proof.
+  induction new as [|[n a] new IH]; intros e log Ha; simpl.
+  - rewrite app_nil_r. exact Ha.
+  - change ((n, DExt a) :: map (fun na => (fst na, DExt (snd na))) new)
+      with ([(n, DExt a)] ++ map (fun na => (fst na, DExt (snd na))) new).
+    rewrite app_assoc. apply IH. apply agree_setup. exact Ha.
+Qed.
+
+Lemma bind_spec_ext e r n a :
+  assoc e n = None -> r n = Some a ->
+  forall m, bind_spec (fst (setup_global e n (DExt a))) r m = bind_spec e r m.
+Proof.
+  intros He Hr m. unfold bind_spec. rewrite setup_global_lookup.
+  destruct (Nat.eqb n m) eqn:Hnm; [|reflexivity].
+  apply Nat.eqb_eq in Hnm; subst m. rewrite He, Hr. reflexivity.
+Qed.
+
+(* the resolver was asked exactly for names without a definition, and answered *)
+Definition fresh_answers (e : envT) (r : resolver) (new : list (name * nat)) : Prop :=
+  forall n a, In (n, a) new -> assoc e n = None /\ r n = Some a.
+
+Definition imports_in (items : list mitem) : list name :=
+  map iname (filter (fun it => ikind_eqb (ik it) KImport) items).
+
+Lemma import_bindings_cons_import n d bs :
+  import_bindings ((KImport, n, d) :: bs) = (n, d) :: import_bindings bs.
+Proof. reflexivity. Qed.
+
+Lemma import_bindings_cons_other k n d bs :
+  ikind_eqb k KImport = false -> import_bindings ((k, n, d) :: bs) = import_bindings bs.
+Proof. intro H. unfold import_bindings. simpl. rewrite H. reflexivity. Qed.
+
+Ltac splits6 := split; [|split; [|split; [|split; [|split]]]].
+Ltac splits5 := split; [|split; [|split; [|split]]].
+
+Lemma link_items_ok r id m items : forall e res e' res' bs,
+  link_items r id m items e res = inl (e', res', bs) ->
+  exists new, res' = res ++ new /\ e' = apply_new e new /\ fresh_answers e r new /\
+    (forall k, bind_spec e' r k = bind_spec e r k) /\
+    import_bindings bs = map (fun n => (n, bind_spec e r n)) (imports_in items) /\
+    (forall n, In n (imports_in items) -> bind_spec e r n <> None).
+Proof.
+  induction items as [|it rest IH]; intros e res e' res' bs H; simpl in H.
+  - inversion H; subst. exists []. rewrite app_nil_r.
+    splits6; try reflexivity; try (intros n a []); try (intros n []); auto.
+  - unfold imports_in in *. simpl.
+    destruct (ik it) eqn:Hk; simpl.
+    + (* import *)
+      destruct (assoc e (iname it)) as [d|] eqn:He.
+      * destruct (link_items r id m rest e res) as [[[e1 res1] bs1]|] eqn:Hl; [|discriminate].
+        inversion H; subst. destruct (IH _ _ _ _ _ Hl) as (new & H1 & H2 & H3 & H4 & H5 & H6).
+        exists new. splits6; auto.
+        -- rewrite import_bindings_cons_import, H5. f_equal. unfold bind_spec. rewrite He. reflexivity.
+        -- intros n [Hn|Hn]; [subst n; unfold bind_spec; rewrite He; discriminate | apply H6; exact Hn].
+      * destruct (r (iname it)) as [a|] eqn:Hr; [|discriminate].
+        destruct (link_items r id m rest (fst (setup_global e (iname it) (DExt a))) (res ++ [(iname it, a)]))
+          as [[[e1 res1] bs1]|] eqn:Hl; [|discriminate].
+        inversion H; subst. destruct (IH _ _ _ _ _ Hl) as (new & H1 & H2 & H3 & H4 & H5 & H6).
+        pose proof (bind_spec_ext e r (iname it) a He Hr) as Hext.
+        exists ((iname it, a) :: new). splits6.
+        -- rewrite H1, <- app_assoc. reflexivity.
+        -- exact H2.
+        -- intros n b [Hin|Hin].
+           ++ inversion Hin; subst. split; [exact He | exact Hr].
+           ++ destruct (H3 _ _ Hin) as [Hx Hy]. split; [|exact Hy]. rewrite setup_global_lookup in Hx.
+              destruct (Nat.eqb (iname it) n); [discriminate | exact Hx].
+        -- intro k. rewrite H4. apply Hext.
+        -- rewrite import_bindings_cons_import, H5. f_equal.
+           ++ f_equal. unfold bind_spec. rewrite He, Hr. reflexivity.
+           ++ apply map_ext. intro n. rewrite Hext. reflexivity.
+        -- intros n [Hn|Hn].
+           ++ subst n. unfold bind_spec. rewrite He, Hr. discriminate.
+           ++ rewrite <- Hext. apply H6. exact Hn.
+    + destruct (link_items r id m rest e res) as [[[e1 res1] bs1]|] eqn:Hl; [|discriminate].
+      inversion H; subst. destruct (IH _ _ _ _ _ Hl) as (new & H1 & H2 & H3 & H4 & H5 & H6).
+      exists new. splits6; auto.
+    + destruct (link_items r id m rest e res) as [[[e1 res1] bs1]|] eqn:Hl; [|discriminate].
+      inversion H; subst. destruct (IH _ _ _ _ _ Hl) as (new & H1 & H2 & H3 & H4 & H5 & H6).
+      exists new. splits6; auto.
+    + apply IH. exact H.
+    + apply IH. exact H.
+    + apply IH. exact H.
+Qed.
+
+Lemma link_items_err r id m items : forall e res x,
+  link_items r id m items e res = inr x ->
+  x = EUndeclaredOpRef /\ exists n, In n (imports_in items) /\ bind_spec e r n = None.
+Proof.
+  induction items as [|it rest IH]; intros e res x H; simpl in H; [discriminate|].
+  unfold imports_in in *. simpl.
+  destruct (ik it) eqn:Hk; simpl.
+  - destruct (assoc e (iname it)) as [d|] eqn:He.
+    + destruct (link_items r id m rest e res) as [[[e1 res1] bs1]|y] eqn:Hl; [discriminate|].
+      inversion H; subst. destruct (IH _ _ _ Hl) as [H1 (n & H2 & H3)].
+      split; [exact H1|]. exists n. split; [right; exact H2 | exact H3].
+    + destruct (r (iname it)) as [a|] eqn:Hr.
+      * destruct (link_items r id m rest (fst (setup_global e (iname it) (DExt a))) (res ++ [(iname it, a)]))
+          as [[[e1 res1] bs1]|y] eqn:Hl; [discriminate|].
+        inversion H; subst. destruct (IH _ _ _ Hl) as [H1 (n & H2 & H3)].
+        split; [exact H1|]. exists n. split; [right; exact H2|].
+        rewrite <- (bind_spec_ext e r (iname it) a He Hr). exact H3.
+      * inversion H; subst. split; [reflexivity|]. exists (iname it). split; [left; reflexivity|].
+        unfold bind_spec. rewrite He, Hr. reflexivity.
+  - destruct (link_items r id m rest e res) as [[[e1 res1] bs1]|y] eqn:Hl; [discriminate|].
+    inversion H; subst. apply (IH _ _ _ Hl).
+  - destruct (link_items r id m rest e res) as [[[e1 res1] bs1]|y] eqn:Hl; [discriminate|].
+    inversion H; subst. apply (IH _ _ _ Hl).
+  - apply (IH _ _ _ H).
+  - apply (IH _ _ _ H).
+  - apply (IH _ _ _ H).
+Qed.
+
+Lemma imports_in_of m : imports_in (mitems m) = imports_of m.
+Proof. reflexivity. Qed.
+
+Lemma apply_new_keeps l n : forall e, assoc e n <> None -> assoc (apply_new e l) n <> None.
+Proof.
+  induction l as [|[k b] l IH]; intros e He; simpl; [exact He|].
+  apply IH. rewrite setup_global_lookup. destruct (Nat.eqb k n); [discriminate | exact He].
+Qed.
+
+Lemma Forall2_imp {A B} (P Q : A -> B -> Prop) l1 l2 :
+  (forall a b, P a b -> Q a b) -> Forall2 P l1 l2 -> Forall2 Q l1 l2.
+Proof. intros H F. induction F; constructor; auto. Qed.
+
+Lemma fresh_answers_app e r l1 l2 :
+  fresh_answers e r l1 -> fresh_answers (apply_new e l1) r l2 ->
+  (forall k, bind_spec (apply_new e l1) r k = bind_spec e r k) ->
+  fresh_answers e r (l1 ++ l2).
+Proof.
+  intros H1 H2 Hb n a Hin. apply in_app_or in Hin. destruct Hin as [Hin|Hin]; [apply H1; exact Hin|].
+  destruct (H2 _ _ Hin) as [Hx Hr]. split; [|exact Hr].
+  specialize (Hb n). unfold bind_spec in Hb. rewrite Hx, Hr in Hb.
+  destruct (assoc e n) eqn:He; [|reflexivity].
+  exfalso. apply (apply_new_keeps l1 n e); [rewrite He; discriminate | exact Hx].
+Qed.
+
+(* the per-module result of a link step: one binding list per pending module, in queue order,
+   every import bound as bind_spec of the table BEFORE the step says *)
+Lemma link_mods_ok r ms : forall e res e' res' all,
+  link_mods r ms e res = inl (e', res', all) ->
+  exists new, res' = res ++ new /\ e' = apply_new e new /\ fresh_answers e r new /\
+    (forall k, bind_spec e' r k = bind_spec e r k) /\
+    Forall2 (fun m ib => fst ib = lid m /\
+                         import_bindings (snd ib) = map (fun n => (n, bind_spec e r n)) (imports_of (lmd m)) /\
+                         forall n, In n (imports_of (lmd m)) -> bind_spec e r n <> None) ms all.
+Proof.
+  induction ms as [|m rest IH]; intros e res e' res' all H; simpl in H.
+  - inversion H; subst. exists []. rewrite app_nil_r. splits5; try reflexivity; try (intros n a []); auto.
+  - destruct (link_items r (lid m) (lmd m) (mitems (lmd m)) e res) as [[[e1 res1] bs]|] eqn:Hi; [|discriminate].
+    destruct (link_mods r rest e1 res1) as [[[e2 res2] all2]|] eqn:Hm; [|discriminate].
+    inversion H; subst.
+    destruct (link_items_ok _ _ _ _ _ _ _ _ _ Hi) as (n1 & A1 & A2 & A3 & A4 & A5 & A6).
+    destruct (IH _ _ _ _ _ Hm) as (n2 & B1 & B2 & B3 & B4 & B5).
+    exists (n1 ++ n2). splits5.
+    + rewrite B1, A1, app_assoc. reflexivity.
+    + rewrite B2, A2, apply_new_app. reflexivity.
+    + subst. apply fresh_answers_app; assumption.
+    + intro k. rewrite B4, A4. reflexivity.
+    + constructor.
+      * simpl. split; [reflexivity|]. split; [exact A5 | exact A6].
+      * eapply Forall2_imp; [|exact B5]. intros x ib (C1 & C2 & C3). split; [exact C1|]. split.
+        -- rewrite C2. apply map_ext. intro n. rewrite A4. reflexivity.
+        -- intros n Hn. rewrite <- A4. apply C3. exact Hn.
+Qed.
+
+Lemma link_mods_err r ms : forall e res x,
+  link_mods r ms e res = inr x ->
+  x = EUndeclaredOpRef /\ exists m n, In m ms /\ In n (imports_of (lmd m)) /\ bind_spec e r n = None.
+Proof.
+  induction ms as [|m rest IH]; intros e res x H; simpl in H; [discriminate|].
+  destruct (link_items r (lid m) (lmd m) (mitems (lmd m)) e res) as [[[e1 res1] bs]|y] eqn:Hi.
+  - destruct (link_mods r rest e1 res1) as [[[e2 res2] all2]|y] eqn:Hm; [discriminate|].
+    inversion H; subst.
+    destruct (link_items_ok _ _ _ _ _ _ _ _ _ Hi) as (n1 & A1 & A2 & A3 & A4 & A5 & A6).
+    destruct (IH _ _ _ Hm) as [H1 (m' & n & H2 & H3 & H4)].
+    split; [exact H1|]. exists m', n. split; [right; exact H2|]. split; [exact H3|].
+    rewrite <- A4. exact H4.
+  - inversion H; subst. destruct (link_items_err _ _ _ _ _ _ _ Hi) as [H1 (n & H2 & H3)].
+    split; [exact H1|]. exists m, n. split; [left; reflexivity|]. split; assumption.
+Qed.
+
+(* ------------------------------------------------------------ traces *)
+
+Lemma loads_in_snoc tr o out :
+  loads_in (tr ++ [(o, out)]) = loads_in tr + (if is_load o then 1 else 0).
+Proof.
+  unfold loads_in. rewrite filter_app, app_length. simpl. destruct (is_load o); reflexivity.
+Qed.
+
+Lemma pubs_from_snoc tr : forall id o out,
+  pubs_from id (tr ++ [(o, out)]) = pubs_from id tr ++ pubs_of_step (id + loads_in tr) o out.
+Proof.
+  induction tr as [|[o1 out1] tr IH]; intros id o out; simpl.
+  - rewrite app_nil_r, Nat.add_0_r. reflexivity.
+  - rewrite IH, <- app_assoc. do 2 f_equal. unfold loads_in. simpl.
+    destruct (is_load o1); simpl; f_equal; lia.
+Qed.
+
+Lemma pubs_snoc tr o out : pubs (tr ++ [(o, out)]) = pubs tr ++ pubs_of_step (loads_in tr) o out.
+Proof. unfold pubs. rewrite pubs_from_snoc. reflexivity. Qed.
+
+Definition pending_step (id : nat) (acc : list lmod) (o : op) (out : output) : list lmod :=
+  match o, out with
+  | Load ds, OOk => match build ds with inl m => acc ++ [{| lid := id; lmd := m |}] | inr _ => acc end
+  | Link _, OLinked _ _ => []
+  | _, _ => acc
+  end.
+
+Lemma pending_from_snoc tr : forall id acc o out,
+  pending_from id (tr ++ [(o, out)]) acc
+  = pending_step (id + loads_in tr) (pending_from id tr acc) o out.
+Proof.
+  induction tr as [|[o1 out1] tr IH]; intros id acc o out.
+  - simpl. rewrite Nat.add_0_r. unfold pending_step.
+    destruct o; try reflexivity; destruct out; try reflexivity; try (destruct (build ds); reflexivity).
+  - assert (E : forall a, pending_from (if is_load o1 then S id else id) (tr ++ [(o, out)]) a
+                     = pending_step (id + loads_in ((o1, out1) :: tr))
+                                    (pending_from (if is_load o1 then S id else id) tr a) o out).
+    { intro a. rewrite IH. f_equal. unfold loads_in. simpl. destruct (is_load o1); simpl; lia. }
+    simpl app. simpl pending_from.
+    destruct o1; try apply E; destruct out1; try apply E.
+    destruct (build ds); apply E.
+Qed.
+
+Lemma pending_snoc tr o out :
+  pending (tr ++ [(o, out)]) = pending_step (loads_in tr) (pending tr) o out.
+Proof. unfold pending. rewrite pending_from_snoc. reflexivity. Qed.
+
+Lemma redef_from_snoc tr : forall acc o out,
+  redef_from (tr ++ [(o, out)]) acc
+  = match o, out with SetRedef b, OOk => b | _, _ => redef_from tr acc end.
+Proof.
+  induction tr as [|[o1 out1] tr IH]; intros acc o out.
+  - simpl. destruct o; try reflexivity; destruct out; reflexivity.
+  - simpl app. simpl redef_from.
+    destruct o1; try apply IH; destruct out1; apply IH.
+Qed.
+
+Lemma redef_snoc tr o out :
+  redef_of (tr ++ [(o, out)]) = match o, out with SetRedef b, OOk => b | _, _ => redef_of tr end.
+Proof. apply redef_from_snoc. Qed.
+
+(* the invariant tying the concrete state to the observable trace *)
+Definition Inv (s : state) (tr : list (op * output)) : Prop :=
+  dead s = false ->
+  agree (env s) (pubs tr) /\ nloads s = loads_in tr /\ to_link s = pending tr /\ redef s = redef_of tr.
+
+Lemma Inv_init : Inv init [].
+Proof. intros _. split; [apply agree_nil | repeat split]. Qed.
+
+Lemma step_dead s o : dead s = true -> step s o = (s, OSkipped).
+Proof. intro H. unfold step. rewrite H. reflexivity. Qed.
+
+Lemma step_inv s tr o s' out :
+  Inv s tr -> step s o = (s', out) -> Inv s' (tr ++ [(o, out)]).
+Proof.
+  intros HI Hs Hd'. unfold step in Hs.
+  destruct (dead s) eqn:Hd.
+  { inversion Hs; subst. rewrite Hd in Hd'. discriminate. }
+  destruct (HI Hd) as (Ha & Hn & Hq & Hr).
+  rewrite pubs_snoc, pending_snoc, redef_snoc, loads_in_snoc.
+  destruct o as [ds|n a|b|r].
+  - (* Load *)
+    destruct (build ds) as [m|e] eqn:Hb.
+    2:{ inversion Hs; subst. simpl in Hd'. discriminate. }
+    destruct (load_items (nloads s) (mitems m) 0 (env s) (redef s)) as [e' [x|]] eqn:Hl.
+    { inversion Hs; subst. simpl in Hd'. discriminate. }
+    inversion Hs; subst. simpl. rewrite Hb. repeat split.
+    + rewrite <- Hn. eapply load_items_ok; [exact Hl | exact Ha].
+    + rewrite Hn. lia.
+    + rewrite Hq, Hn. reflexivity.
+    + exact Hr.
+  - inversion Hs; subst. simpl. repeat split; auto.
+    + apply agree_setup. exact Ha.
+    + rewrite Hn. lia.
+  - inversion Hs; subst. simpl. rewrite app_nil_r. repeat split; auto. rewrite Hn. lia.
+  - destruct (link_mods r (to_link s) (env s) []) as [[[e' res] bs]|x] eqn:Hl.
+    2:{ inversion Hs; subst. simpl in Hd'. discriminate. }
+    inversion Hs; subst. simpl.
+    destruct (link_mods_ok _ _ _ _ _ _ _ Hl) as (new & A1 & A2 & _).
+    simpl in A1. subst. repeat split; auto.
+    + apply agree_apply_new. exact Ha.
+    + rewrite Hn. lia.
+Qed.
+
+Lemma run_from_inv h : forall s0 tr0 s tr,
+  Inv s0 tr0 -> run_from s0 h = (s, tr) -> Inv s (tr0 ++ tr).
+Proof.
+  induction h as [|o h IH]; intros s0 tr0 s tr HI Hr; simpl in Hr.
+  - inversion Hr; subst. rewrite app_nil_r. exact HI.
+  - destruct (step s0 o) as [s1 out] eqn:Hs.
+    destruct (run_from s1 h) as [s2 tr2] eqn:Hr2.
+    inversion Hr; subst.
+    change (tr0 ++ (o, out) :: tr2) with (tr0 ++ [(o, out)] ++ tr2). rewrite app_assoc.
+    eapply IH; [|exact Hr2]. eapply step_inv; eauto.
+Qed.
+
+Lemma run_inv h : Inv (fst (run h)) (snd (run h)).
+Proof.
+  destruct (run h) as [s tr] eqn:Hr. simpl.
+  apply (run_from_inv h init [] s tr Inv_init Hr).
+Qed.
+
+Lemma run_from_app h1 : forall h2 s0,
+  run_from s0 (h1 ++ h2)
+  = let '(s1, t1) := run_from s0 h1 in let '(s2, t2) := run_from s1 h2 in (s2, t1 ++ t2).
+Proof.
+  induction h1 as [|o h1 IH]; intros h2 s0; simpl.
+  - destruct (run_from s0 h2); reflexivity.
+  - destruct (step s0 o) as [s1 out]. rewrite IH.
+    destruct (run_from s1 h1) as [s2 t2]. destruct (run_from s2 h2) as [s3 t3]. reflexivity.
+Qed.
+
+(* ------------------------------------------------------------ the property, on traces *)
+
+(* what a completed or failed link step must look like, given the trace before it *)
+Definition link_step_spec (tr : list (op * output)) (r : resolver) (out : output) : Prop :=
+  let log := pubs tr in
+  match out with
+  | OLinked bs res =>
+      (* one binding list per module loaded since the previous link, in load order; every import
+         of every such module is bound to the definition loaded last before the step, else to
+         the resolver's address *)
+      Forall2 (fun m ib =>
+                 fst ib = lid m /\
+                 import_bindings (snd ib) = map (fun n => (n, wanted log r n)) (imports_of (lmd m)) /\
+                 forall n, In n (imports_of (lmd m)) -> wanted log r n <> None)
+              (pending tr) bs /\
+      (* the resolver is consulted only for names nobody defined, and its answers are kept *)
+      forall n a, In (n, a) res -> last_def log n = None /\ r n = Some a
+  | OErr e =>
+      e = EUndeclaredOpRef /\
+      exists m n, In m (pending tr) /\ In n (imports_of (lmd m)) /\ wanted log r n = None
+  | _ => False
+  end.
+
+Lemma bind_spec_wanted e log r n : agree e log -> bind_spec e r n = wanted log r n.
+Proof. intro H. unfold bind_spec, wanted. rewrite H. reflexivity. Qed.
+
+Lemma link_step_correct s tr r :
+  Inv s tr -> dead s = false -> link_step_spec tr r (snd (step s (Link r))).
+Proof.
+  intros HI Hd. destruct (HI Hd) as (Ha & Hn & Hq & Hr).
+  unfold step. rewrite Hd.
+  destruct (link_mods r (to_link s) (env s) []) as [[[e' res] bs]|x] eqn:Hl; simpl.
+  - destruct (link_mods_ok _ _ _ _ _ _ _ Hl) as (new & A1 & A2 & A3 & A4 & A5).
+    simpl in A1. subst res. rewrite <- Hq. split.
+    + eapply Forall2_imp; [|exact A5]. intros m ib (C1 & C2 & C3). split; [exact C1|]. split.
+      * rewrite C2. apply map_ext. intro n. f_equal. apply bind_spec_wanted. exact Ha.
+      * intros n Hn'. rewrite <- (bind_spec_wanted (env s) _ r n Ha). apply C3. exact Hn'.
+    + intros n a Hin. destruct (A3 _ _ Hin) as [B1 B2]. split; [rewrite <- Ha; exact B1 | exact B2].
+  - destruct (link_mods_err _ _ _ _ _ Hl) as [E (m & n & B1 & B2 & B3)].
+    split; [exact E|]. exists m, n. rewrite <- Hq. split; [exact B1|]. split; [exact B2|].
+    rewrite <- (bind_spec_wanted (env s) _ r n Ha). exact B3.
+Qed.
+
+(* every Link step of every history *)
+Lemma link_binds_latest_proof : forall (p : list op) (r : resolver) (rest : list op),
+  exists out tail,
+    snd (run (p ++ Link r :: rest)) = snd (run p) ++ (Link r, out) :: tail /\
+    (dead (fst (run p)) = false -> link_step_spec (snd (run p)) r out).
+Proof.
+  intros p r rest. unfold run. rewrite run_from_app.
+  pose proof (run_inv p) as HI. unfold run in HI.
+  destruct (run_from init p) as [s1 t1] eqn:H1. simpl in HI. simpl run_from.
+  destruct (step s1 (Link r)) as [s2 out] eqn:Hs.
+  destruct (run_from s2 rest) as [s3 t3]. simpl.
+  exists out, t3. split; [reflexivity|]. intro Hd.
+  pose proof (link_step_correct s1 t1 r HI Hd) as H. rewrite Hs in H. exact H.
+Qed.
+
+(* ------------------------------------------------------------ redefinition *)
+
+Definition redefines (log : list (name * defref)) (id : nat) (m : modl) : Prop :=
+  exists l1 it l2, mitems m = l1 ++ it :: l2 /\ iexp it = true /\ ik it = KFunc /\
+                   last_def (log ++ exported_from id l1 0) (iname it) <> None.
+
+Lemma load_step_out s ds m :
+  dead s = false -> build ds = inl m ->
+  snd (step s (Load ds))
+  = match snd (load_items (nloads s) (mitems m) 0 (env s) (redef s)) with
+    | Some x => OErr x
+    | None => OOk
+    end.
+Proof.
+  intros Hd Hb. unfold step. rewrite Hd, Hb.
+  destruct (load_items (nloads s) (mitems m) 0 (env s) (redef s)) as [e' [x|]]; reflexivity.
+Qed.
+
+Lemma link_redef_rejected_proof : forall (h : list op) (ds : list decl) (m : modl),
+  let s := fst (run h) in
+  let tr := snd (run h) in
+  let out := snd (step s (Load ds)) in
+  dead s = false -> build ds = inl m ->
+  (out = OOk \/ out = OErr ERepeatedDecl) /\
+  (out = OErr ERepeatedDecl <-> redef_of tr = false /\ redefines (pubs tr) (loads_in tr) m).
+Proof.
+  intros h ds m s tr out Hd Hb.
+  pose proof (run_inv h) as HI. destruct (HI Hd) as (Ha & Hn & Hq & Hr).
+  fold s in Ha, Hn, Hq, Hr. fold tr in Ha, Hn, Hq, Hr.
+  unfold out. rewrite (load_step_out s ds m Hd Hb).
+  pose proof (load_items_err_kind (nloads s) (mitems m) 0 (env s) (redef s)) as Hk.
+  pose proof (load_items_rejects (nloads s) (mitems m) 0 (env s) (redef s) (pubs tr) Ha) as Hj.
+  unfold redefines. rewrite <- Hr, <- Hn.
+  destruct (snd (load_items (nloads s) (mitems m) 0 (env s) (redef s))) as [x|] eqn:Hl.
+  - destruct Hk as [Hk|Hk]; [discriminate|]. inversion Hk; subst x.
+    split; [right; reflexivity|]. split; [intros _; apply Hj; reflexivity | reflexivity].
+  - split; [left; reflexivity|]. split; [discriminate|].
+    intro H. apply Hj in H. discriminate.
+Qed.
+
+(* ------------------------------------------------------------ stability of earlier bindings *)
+
+Lemma step_linked_prefix s o : exists ext, linked (fst (step s o)) = linked s ++ ext.
+Proof.
+  unfold step. destruct (dead s); [exists []; simpl; rewrite app_nil_r; reflexivity|].
+  destruct o as [ds|n a|b|r].
+  - destruct (build ds) as [m|e].
+    + destruct (load_items (nloads s) (mitems m) 0 (env s) (redef s)) as [e' [x|]];
+        exists []; simpl; rewrite app_nil_r; reflexivity.
+    + exists []; simpl; rewrite app_nil_r; reflexivity.
+  - exists []; simpl; rewrite app_nil_r; reflexivity.
+  - exists []; simpl; rewrite app_nil_r; reflexivity.
+  - destruct (link_mods r (to_link s) (env s) []) as [[[e' res] bs]|x].
+    + exists bs. reflexivity.
+    + exists []; simpl; rewrite app_nil_r; reflexivity.
+Qed.
+
+Lemma run_from_linked_prefix h : forall s, exists ext, linked (fst (run_from s h)) = linked s ++ ext.
+Proof.
+  induction h as [|o h IH]; intro s; simpl.
+  - exists []. rewrite app_nil_r. reflexivity.
+  - destruct (step s o) as [s1 out] eqn:Hs.
+    destruct (step_linked_prefix s o) as [e1 H1]. rewrite Hs in H1. simpl in H1.
+    destruct (IH s1) as [e2 H2]. destruct (run_from s1 h) as [s2 t2]. simpl in *.
+    exists (e1 ++ e2). rewrite H2, H1, app_assoc. reflexivity.
+Qed.
+
+Lemma link_earlier_bindings_stable_proof : forall (h later : list op),
+  exists ext, linked (fst (run (h ++ later))) = linked (fst (run h)) ++ ext.
+Proof.
+  intros h later. unfold run. rewrite run_from_app.
+  destruct (run_from init h) as [s1 t1]. simpl.
+  destruct (run_from_linked_prefix later s1) as [ext H].
+  destruct (run_from s1 later) as [s2 t2]. simpl in *. exists ext. exact H.
+Qed.
+
+(* a completed link records exactly the bindings it reported, after those of earlier links *)
+Lemma link_records_bindings_proof : forall s r bs res,
+  snd (step s (Link r)) = OLinked bs res -> linked (fst (step s (Link r))) = linked s ++ bs.
+Proof.
+  intros s r bs res. unfold step. destruct (dead s); [discriminate|].
+  destruct (link_mods r (to_link s) (env s) []) as [[[e' res'] bs']|x]; simpl; [|discriminate].
+  intro H. inversion H; subst. reflexivity.
+Qed.
+
+(* ------------------------------------------------------------ queue and table characterisation *)
+
+Lemma queue_is_pending_proof : forall h,
+  dead (fst (run h)) = false -> to_link (fst (run h)) = pending (snd (run h)).
+Proof. intros h Hd. destruct (run_inv h Hd) as (_ & _ & H & _). exact H. Qed.
+
+Lemma table_is_last_def_proof : forall h n,
+  dead (fst (run h)) = false -> assoc (env (fst (run h))) n = last_def (pubs (snd (run h))) n.
+Proof. intros h n Hd. destruct (run_inv h Hd) as (H & _). apply H. Qed.
